@@ -9,8 +9,8 @@ namespace Owl.Drv
 open Owl
 
 def posOps : List String :=
-  ["gen", "genvec", "semibulk", "mvalidate", "legalunchecked", "make", "makelike", "attackers", "check",
-   "outcome", "fenformat", "uciinto", "saninto", "sanof"]
+  ["gen", "genvec", "semibulk", "mvalidate", "legalunchecked", "make", "makelike", "attackers", "check", "queryafter",
+   "outcome", "outcomeafter", "fenformat", "uciinto", "saninto", "sanof"]
 
 /-- (model answer, oracle verdict) for one case line and the implementation's answer -/
 def answer (line impl : String) : String × String :=
@@ -23,6 +23,13 @@ def answer (line impl : String) : String × String :=
       | none => ("badop", "-")
       | some (raw, rest) => (opMPos op raw rest, opSPos op raw rest impl)
     else match op, args with
+    | "geninto2", _ =>
+      (match parseRaw args with
+       | some (raw1, rest) =>
+         (match parseRaw rest with
+          | some (raw2, []) => (opMGenInto2 raw1 raw2, opSGenInto2 raw1 raw2 impl)
+          | _ => ("badop", "-"))
+       | none => ("badop", "-"))
     | "validate", _ =>
       (match parseRaw args with
        | some (raw, []) => (opMValidate raw, opSValidate raw impl)
